@@ -312,6 +312,17 @@ def canonical_branches(tree: ast.AST) -> ast.AST:
             return node
     tree = _Canon().visit(tree)
 
+    # `for t in E: yield t` is `yield from E` (nothing in the package sends or throws into its generators)
+    class _YieldFrom(ast.NodeTransformer):
+        def visit_For(self, node: ast.For):
+            self.generic_visit(node)
+            if not node.orelse and isinstance(node.target, ast.Name) and len(node.body) == 1 and isinstance(node.body[0], ast.Expr) \
+                    and isinstance(node.body[0].value, ast.Yield) and isinstance(node.body[0].value.value, ast.Name) \
+                    and node.body[0].value.value.id == node.target.id:
+                return ast.copy_location(ast.Expr(value=ast.copy_location(ast.YieldFrom(value=node.iter), node)), node)
+            return node
+    tree = _YieldFrom().visit(tree)
+
     def negate(t: ast.AST) -> ast.AST:
         if isinstance(t, ast.UnaryOp) and isinstance(t.op, ast.Not):
             return t.operand
